@@ -39,6 +39,9 @@ pub enum Act {
     /// the node answers again, but its best block is the parent of the tower's tip (it lost its last block, or sits on
     /// an equal-work sibling): the next poll finds a worse tip
     NodeBehind,
+    /// the chain thread starts a poll and runs until it has asked the node for its best block; the rest of the poll
+    /// (delivering, raising the flag, waking the waiters) is left for the next `Poll`
+    PollUntilNodeAsked,
 }
 
 impl Act {
@@ -54,6 +57,7 @@ impl Act {
             Act::Poll => "poll".into(),
             Act::Probe => "probe".into(),
             Act::NodeBehind => "nodebehind".into(),
+            Act::PollUntilNodeAsked => "polluntilnodeasked".into(),
         }
     }
 }
@@ -141,6 +145,9 @@ pub fn scenarios() -> Vec<(&'static str, Vec<Act>)> {
         // worse tip; it is still a successful poll: the outage is over, the waiting submission goes through
         ("node-back-one-block-behind", vec![NodeDown, Poll, Probe, NodeBehind, NodeUp, Poll, Probe]),
         ("request-path-node-back-one-block-behind", vec![NodeDown, ApiStart, ApiRun, Probe, NodeBehind, NodeUp, Poll, ApiRun, Probe]),
+        // the carrier notices the outage while a poll is in flight (the poll has already asked the node, which was up
+        // then): when that poll completes it raises the flag — and must wake the carrier it finds waiting
+        ("outage-noticed-by-the-carrier-while-a-poll-is-in-flight", vec![ApiStart, PollUntilNodeAsked, RpcDownAfter(0), ApiRun, Probe, NodeUp, Poll, ApiRun, Probe]),
         ("request-path-node-flaps-twice", vec![NodeDown, ApiStart, ApiRun, NodeUp, RpcDownAfter(0), Poll, ApiRun, NodeUp, RpcDownAfter(0), Poll, ApiRun, Probe, NodeUp, Poll, ApiRun, Probe]),
     ]
 }
@@ -150,6 +157,10 @@ pub fn run(_seed: u64, _thorough: bool, rep: &mut Report) {
     let boot = BootChain::new();
     for (name, acts) in scenarios() {
         rep.begin_case(name);
+        // (the protocol model has polls as one step: a scenario that stops a poll half-way is checked by the monitors only)
+        if acts.iter().any(|a| *a == Act::PollUntilNodeAsked) {
+            rep.uncompared = true;
+        }
         // set-up (unmanaged): two users' appointments; dispute of locator 1 in the cache, appointment of
         // locator 2 stored (its dispute comes in a later block)
         let mut sys = TowerSys::boot((5, 400, 6), 100, &boot, rep);
@@ -273,6 +284,41 @@ pub fn run(_seed: u64, _thorough: bool, rep: &mut Report) {
                     }
                 }
                 Act::Probe => {}
+                Act::PollUntilNodeAsked => {
+                    let busy = run.chain_tid.map_or(false, |t| sched.st.lock().unwrap().threads[t] != TState::Finished);
+                    if !busy {
+                        if let Some(h) = run.chain.take() {
+                            run.monitor = Some(h.join().unwrap());
+                        }
+                        let tid = run.next_tid;
+                        run.next_tid += 1;
+                        run.chain_tid = Some(tid);
+                        sched.st.lock().unwrap().threads[tid] = TState::NotStarted;
+                        let mut mon = run.monitor.take().unwrap();
+                        let s2 = sched.clone();
+                        run.live.as_ref().unwrap().source.0.lock().unwrap().calls.clear();
+                        run.chain = Some(std::thread::spawn(move || {
+                            s2.thread_start(tid);
+                            let rt = tokio::runtime::Builder::new_current_thread().enable_all().build().unwrap();
+                            rt.block_on(mon.poll_best_tip());
+                            s2.thread_end(tid);
+                            mon
+                        }));
+                        // grant the chain thread until the block source has been asked (or it cannot go on)
+                        for _ in 0..200 {
+                            // (settle first: only then has the thread reached its next scheduling point)
+                            let enabled = match sched.settle() {
+                                Ok(e) => e,
+                                Err(_) => break,
+                            };
+                            let asked = !run.live.as_ref().unwrap().source.0.lock().unwrap().calls.is_empty();
+                            if asked || !enabled.contains(&tid) {
+                                break;
+                            }
+                            sched.grant(tid);
+                        }
+                    }
+                }
                 Act::NodeBehind => {
                     let l = run.live.as_ref().unwrap();
                     let n = l.sys.chain.len();
